@@ -253,7 +253,8 @@ class Interp:
             elif e == "copy_flush":
                 out.append(c.copy_flush())
             elif e == "merge":
-                o = self.inputs[k % len(self.inputs)]
+                # every third time the other operand is a continuum without any annotator (nothing to merge in)
+                o = pa.Continuum() if k % 3 == 0 else self.inputs[k % len(self.inputs)]
                 out.append(c.merge(o, in_place=False))
                 out.append(c + o)
             elif e == "getitem":
